@@ -11,6 +11,10 @@
 (*                 | 2:  + LAG_<last>      in equation 1, LAG_<last> = <last>(t-1)       *)
 (*                 | 3:  + 0.5*LAG2_<last> in equation 1, LAG_<last> = <last>(k-1),      *)
 (*                       LAG2_<last> = LAG_<last>(k-1)   (a lag of a lagged variable)    *)
+(*                 | 4, 5, 6:  + 0.5*LAG2_<last> + 0.25*LAGB_<last> in equation 1, where *)
+(*                       LAG2_<last> and LAGB_<last> BOTH lag the lagged variable        *)
+(*                       LAG_<last>; the three lag lines in the order                    *)
+(*                       4: LAG, LAG2, LAGB | 5: LAG2, LAGB, LAG | 6: LAG2, LAG, LAGB    *)
 (*   ic     <last>(0) = 10.0                                                             *)
 (*   exo    0 none | 1:  + G  in equation 1, G a literal list of exactly MaxTime+1       *)
 (*                 | 2:  + G, G a list expression of MaxTime+3 values (gets chopped)     *)
@@ -27,6 +31,7 @@
 (*             is above MaxIterations = 400)                                             *)
 (*          2: STEP, main, orig_vector and the parameter MaxIterations = 2.0 -           *)
 (*             attributes / methods / the unpack local of the generated class            *)
+(*          3: x, NEW_x, z and c0 - NEW_x is the Iterator's local for the new value of x *)
 (* The replay driver renders the text from these fields (harness/checks/c20.py).         *)
 EXTENDS Codegen, Json
 
@@ -35,7 +40,8 @@ CONSTANT Tier      \* "quick" | "thorough" | "tiny": which block set MC_Blocks i
 
 NameSets == << << "x", "y", "z", "c0" >>,
                << "err", "new_vector", "in_vec", "cnt" >>,
-               << "STEP", "main", "orig_vector", "MaxIterations" >> >>
+               << "STEP", "main", "orig_vector", "MaxIterations" >>,
+               << "x", "NEW_x", "z", "c0" >> >>
 VarName(o, i) == NameSets[o.nm + 1][i]
 ParamName(o) == NameSets[o.nm + 1][4]
 MC_MathNames == {"sqrt", "exp", "log", "floor", "pi"}
@@ -52,11 +58,13 @@ OffDiag(o, i) ==
 Last(o) == VarName(o, o.n)
 LagName(o) == "LAG_" \o Last(o)
 Lag2Name(o) == "LAG2_" \o Last(o)
+LagBName(o) == "LAGB_" \o Last(o)
 
 EqReads(o, i) ==
     OffDiag(o, i)
     \o Opt(i = 1 /\ o.lag \in {1, 2}, << LagName(o) >>)
-    \o Opt(i = 1 /\ o.lag = 3, << Lag2Name(o) >>)
+    \o Opt(i = 1 /\ o.lag >= 3, << Lag2Name(o) >>)
+    \o Opt(i = 1 /\ o.lag >= 4, << LagBName(o) >>)
     \o Opt(i = 1 /\ o.exo > 0, << "G" >>)
     \o Opt(i = 1 /\ o.cst = 1, << "sqrt" >>)
     \o Opt(i = 1 /\ o.cst = 2, << ParamName(o) >>)
@@ -67,8 +75,15 @@ MkBlock(o) ==
     [ endo   |-> [ i \in 1..o.n |-> [name |-> VarName(o, i), reads |-> EqReads(o, i)] ]
                  \o Opt(o.cst = 2, << [name |-> ParamName(o), reads |-> << >>] >>)
                  \o Opt(o.userT = "endo", << [name |-> "t", reads |-> << "t_minus_1" >>] >>),
-      lagged |-> Opt(o.lag > 0, << [name |-> LagName(o), of |-> Last(o)] >>)
-                 \o Opt(o.lag = 3, << [name |-> Lag2Name(o), of |-> LagName(o)] >>)
+      lagged |-> LET l1 == [name |-> LagName(o), of |-> Last(o)]
+                     l2 == [name |-> Lag2Name(o), of |-> LagName(o)]
+                     lb == [name |-> LagBName(o), of |-> LagName(o)]
+                 IN (CASE o.lag = 0 -> << >>
+                       [] o.lag \in {1, 2} -> << l1 >>
+                       [] o.lag = 3 -> << l1, l2 >>
+                       [] o.lag = 4 -> << l1, l2, lb >>
+                       [] o.lag = 5 -> << l2, lb, l1 >>
+                       [] o.lag = 6 -> << l2, l1, lb >>)
                  \o Opt(o.userT = "endo", << [name |-> "t_minus_1", of |-> "t"] >>),
       exos   |-> Opt(o.exo > 0, << [name |-> "G", len |-> IF o.exo = 1 THEN o.maxTime + 1 ELSE o.maxTime + 3] >>)
                  \o Opt(o.userT = "exo", << [name |-> "t", len |-> o.maxTime + 1] >>),
@@ -115,11 +130,16 @@ Profiles ==
       [lag |-> 3, ic |-> TRUE,  exo |-> 1, cst |-> 2, userT |-> "none", useT |-> TRUE,  tol |-> 0, nm |-> 0],
       [lag |-> 3, ic |-> FALSE, exo |-> 0, cst |-> 0, userT |-> "endo", useT |-> FALSE, tol |-> 4, nm |-> 1],
       [lag |-> 1, ic |-> FALSE, exo |-> 2, cst |-> 2, userT |-> "none", useT |-> TRUE,  tol |-> 0, nm |-> 1],
-      [lag |-> 0, ic |-> TRUE,  exo |-> 1, cst |-> 2, userT |-> "exo",  useT |-> FALSE, tol |-> 0, nm |-> 1] }
+      [lag |-> 0, ic |-> TRUE,  exo |-> 1, cst |-> 2, userT |-> "exo",  useT |-> FALSE, tol |-> 0, nm |-> 1],
+      [lag |-> 4, ic |-> TRUE,  exo |-> 1, cst |-> 0, userT |-> "none", useT |-> TRUE,  tol |-> 0, nm |-> 0],
+      [lag |-> 5, ic |-> FALSE, exo |-> 2, cst |-> 2, userT |-> "endo", useT |-> FALSE, tol |-> 4, nm |-> 0],
+      [lag |-> 6, ic |-> TRUE,  exo |-> 0, cst |-> 1, userT |-> "exo",  useT |-> TRUE,  tol |-> 0, nm |-> 1] }
 (* blocks whose variables capture names of the generated class: the generator must refuse them *)
 OwnNameProfiles ==
     { [lag |-> 1, ic |-> TRUE,  exo |-> 1, cst |-> 2, userT |-> "none", useT |-> TRUE,  tol |-> 0, nm |-> 2],
-      [lag |-> 0, ic |-> FALSE, exo |-> 0, cst |-> 0, userT |-> "endo", useT |-> FALSE, tol |-> 0, nm |-> 2] }
+      [lag |-> 0, ic |-> FALSE, exo |-> 0, cst |-> 0, userT |-> "endo", useT |-> FALSE, tol |-> 0, nm |-> 2],
+      [lag |-> 1, ic |-> TRUE,  exo |-> 1, cst |-> 2, userT |-> "none", useT |-> TRUE,  tol |-> 0, nm |-> 3],
+      [lag |-> 0, ic |-> FALSE, exo |-> 0, cst |-> 0, userT |-> "endo", useT |-> FALSE, tol |-> 0, nm |-> 3] }
 ProfilesOf(P, M, MT) ==
     { [n |-> Len(A), A |-> A, maxTime |-> mt] @@ pr : A \in M, pr \in P, mt \in MT }
 ProfilesOver(M, MT) == ProfilesOf(Profiles, M, MT)
@@ -138,6 +158,8 @@ BlocksQuick(mt) ==
     \cup { MkBlock(o) : o \in OptsOverN(Mats1, {mt}, {0}, {0, 3}, {1}) }
     \cup { MkBlock(o) : o \in OptsOverN(Base2, {mt}, {0}, {3}, {0}) }
     \cup { MkBlock(o) : o \in OptsOverN(Base2, {mt}, {0}, {1}, {1}) }
+    \cup { MkBlock(o) : o \in OptsOverN(Mats1, {mt}, {0}, 4..6, {0}) }
+    \cup { MkBlock(o) : o \in OptsOverN(Base2, {mt}, {0}, {5}, {0}) }
     \cup { MkBlock(o) : o \in ProfilesOver(Mats1 \cup Mats2 \cup Mats3Few, {mt}) }
     \cup { MkBlock(o) : o \in ProfilesOf(OwnNameProfiles, OwnNameMats, {mt}) }
 
@@ -148,6 +170,7 @@ BlocksQuick(mt) ==
 BlocksThorough(mt) ==
     { MkBlock(o) : o \in OptsOverN(Mats1 \cup Mats2 \cup Mats3Few, {mt}, {0, 4}, 0..2, {0}) }
     \cup { MkBlock(o) : o \in OptsOverN(Mats1 \cup Mats2 \cup Mats3Few, {mt}, {0}, {3}, {0}) }
+    \cup { MkBlock(o) : o \in OptsOverN(Mats1 \cup BaseMats, {mt, 6}, {0}, 4..6, {0}) }
     \cup { MkBlock(o) : o \in OptsOverN(Mats1 \cup BaseMats, {mt}, {0}, 0..3, {1}) }
     \cup { MkBlock(o) : o \in OptsOverN(BaseMats, {1, 6}, {0}, 0..3, {0}) }
     \cup { MkBlock(o) : o \in ProfilesOver(Mats3Mid, {4}) }
